@@ -55,6 +55,16 @@ Proof. vm_compute. reflexivity. Qed.
         c.cov["constructor_programs"] = {k: [i for i, _ in v["prog"]] for k, v in progs.items()}
     except struct_scan.Untranslatable as ex:
         c.oblige("struct_scan.programs (translator of __new__ into Model/NewProg.v instructions)", False, str(ex))
+    # the memoised helpers: lru_cache'd, and everything they return (and therefore cache) comes straight from an interning constructor
+    try:
+        mh = struct_scan.memo_helpers()
+        txt_ = ("From Coq Require Import List Bool. Import ListNotations.\n"
+                f"(* {mh} *)\nDefinition helpers : list (bool * bool) := {clist('(%s, %s)' % ('true' if d_ else 'false', 'true' if r_ else 'false') for _c, _f, d_, r_ in mh)}.\n"
+                "Lemma memoised_helpers_end_in_constructors : length helpers = 4%nat /\\ forallb (fun h => fst h && snd h) helpers = true.\nProof. vm_compute. split; reflexivity. Qed.\n")
+        ok_, log_ = c.run_coq({"Gen_helpers": txt_})["Gen_helpers"]
+        c.oblige("Gen_helpers.memoised_helpers_end_in_constructors (Dimension/Unit._multiply/_divide are lru_cache'd and return only what an interning constructor returns: hypothesis of C20_memoised_helpers)", ok_, f"{mh} {log_[-300:]}")
+    except Exception as ex:
+        c.oblige("struct_scan.memo_helpers (translator)", False, str(ex))
     # tie B / search: every preemption-bounded schedule on the real code
     classes = ["Dimension", "Prefix", "Unit", "UnitMul"]
     if c.tier == "quick":
